@@ -35,6 +35,14 @@ class FakeSharedMemory:
     def buf(self):
         return memoryview(self.table.t[self._name])
 
+    @property
+    def size(self):
+        return len(self.table.t[self._name])
+
+    @property
+    def name(self):
+        return self._name
+
     def unlink(self):
         if self._name not in self.table.t:
             raise FileNotFoundError(self._name)
@@ -250,7 +258,15 @@ def step(w: World, op, failures):
                 cb(False)
         else:
             w.reserved_in.pop(shmid, None)
-            if ok:
+            if ok == "nofile":
+                # the spill file has vanished: the REAL _page_in creates the segment, fails to open the file and reports the failure
+                import os
+                try:
+                    os.remove(f"{w.m.disk.root.name}/{shmid}")
+                except OSError:
+                    pass
+                w.m.disk._page_in(shmid, size, cb)
+            elif ok:
                 w.m.disk._page_in(shmid, size, cb)  # REAL disk code: file -> new segment, callback
             else:
                 before = w.m.free_space
@@ -394,6 +410,14 @@ SCRIPTS = [
     (4, [("add", "a", 2), ("fin_write", "a"), ("get", "a"), ("get", "a"), ("purge", "a"), ("fin_read", "a"), ("fin_read", "a"), ("add", "a", 4)]),
     # failed page-out, failed page-in
     (4, [("add", "a", 3), ("fin_write", "a"), ("add", "b", 2), ("complete", 0, False), ("add", "b", 2)]),
+    # the same key lives twice: paged out and in, purged while in memory, allocated again with the SAME size and NEW bytes, paged out and in
+    # again, read - the second incarnation's bytes must come back (the spill file of the first one is still lying around)
+    (4, [("add", "a", 3), ("fin_write", "a"), ("add", "b", 3), ("complete", 0, True), ("add", "b", 3), ("fin_write", "b"), ("get", "a"), ("complete", 0, True),
+         ("get", "a"), ("complete", 0, True), ("get", "a"), ("fin_read", "a"), ("purge", "a"), ("add", "a", 3), ("fin_write", "a"), ("get", "b"), ("complete", 0, True),
+         ("get", "b"), ("complete", 0, True), ("get", "b"), ("fin_read", "b"), ("get", "a"), ("complete", 0, True), ("get", "a"), ("complete", 0, True), ("get", "a")]),
+    # a page-in that fails AFTER its segment was created (the spill file has vanished): the reservation is given back exactly once
+    (4, [("add", "a", 3), ("fin_write", "a"), ("add", "b", 3), ("complete", 0, True), ("add", "b", 3), ("fin_write", "b"), ("get", "a"), ("complete", 0, True),
+         ("get", "a"), ("complete", 0, "nofile"), ("add", "c", 4), ("add", "d", 1), ("get", "b")]),
     # eviction attempt that finds nothing evictable, later one that does
     (4, [("add", "a", 3), ("add", "b", 3), ("fin_write", "a"), ("get", "a"), ("add", "b", 3), ("fin_read", "a"), ("add", "b", 3), ("complete", 0, True), ("add", "b", 3)]),
 ]
